@@ -601,7 +601,11 @@ impl Exec {
         self.check_debt_sane(ai, debt1, count1, what);
         if !st.pacing_changed {
             let tol = 1e-9 * debt0.abs().max(debt1.abs()).max(st.neg_adjust.abs()).max(st.pos_adjust.abs()).max(1.0);
-            let floor = debt0 + st.neg_adjust - pacing.mark_factor * st.fwd_marks as f64 - tol;
+            // a forward barrier (or resurrect) marks its target, which is collection work that is
+            // credited - but only while the collector is marking; in every other phase the calls
+            // do nothing and no barrier may lower the debt
+            let fwd_credit = if ph0 == 1 || ph0 == 2 { st.fwd_marks } else { 0 };
+            let floor = debt0 + st.neg_adjust - pacing.mark_factor * fwd_credit as f64 - tol;
             if debt1 < floor && count0 > 0 {
                 self.violate("C10", "debt-decreased-in-callback", format!("{what}: debt went from {debt0} to {debt1} (explicit negative adjustment {}, {} forward-barrier/resurrect calls at mark_factor {})", st.neg_adjust, st.fwd_marks, pacing.mark_factor));
             }
@@ -1170,7 +1174,8 @@ impl Exec {
                 if !st.pacing_changed {
                     let pacing = pacing_preset(self.model.arenas[ai].preset);
                     let tol = 1e-9 * debt0.abs().max(debt1.abs()).max(st.neg_adjust.abs()).max(1.0);
-                    if debt1 < debt0 + st.neg_adjust - pacing.mark_factor * st.fwd_marks as f64 - tol && count0 > 0 {
+                    let fwd_credit = if ph0 == 1 || ph0 == 2 { st.fwd_marks } else { 0 };
+                    if debt1 < debt0 + st.neg_adjust - pacing.mark_factor * fwd_credit as f64 - tol && count0 > 0 {
                         self.violate("C10", "debt-decreased-in-callback", format!("{what}: debt went from {debt0} to {debt1}"));
                     }
                 }
